@@ -4,7 +4,11 @@ C16 - positional record codecs (TLV, fixed-width) round-trip, refuse, and termin
 Lean: lean/N0Verif/Model/Tlv.lean, Model/Fwf.lean, Proofs/Tlv.lean, Proofs/Fwf.lean, Props/C16.lean
       Gen/TlvPy.lean is regenerated from the source of parse_tlv by translate() (harness/translate_py_tlv.py);
       C16_generated_step_eq / _cond_eq / _parse_eq prove it equal to Tlv.step / Tlv.loop, C16_tlv_terminates_generated transfers termination.
-B streams: tlv.int, tlv.parse (generated / mutated / soup / exhaustive), tlvpy.parse (the translated generator), tlv.gen, fwf.parse, fwf.gen, fwf.load
+      Gen/TlvGenPy.lean is regenerated from the source of generate_tlv (harness/translate_py_tlvgen.py);
+      C16_generated_gen_entry_eq / _entries_eq / _guard_eq / _guard_skips / _eq prove it equal to Tlv.genEntry / genEntries / lenPadOk / generateTlv.
+      Gen/FwfPy.lean is regenerated from two fragments of parse_fwf_row / generate_fwf_row (harness/translate_py_fwf.py);
+      C16_generated_fwf_slice_eq / C16_generated_gen_fwf_cell_eq prove them equal to Fwf.colValue / Fwf.place.
+B streams: tlv.int, tlv.parse (generated / mutated / soup / exhaustive), tlvpy.parse (the translated generator), tlv.gen, tlvgenpy.gen (the translated writer), fwfpy.slice / fwfpy.place (the translated fixed-width fragments), fwf.parse, fwf.gen, fwf.load
 C evaluators: tlv_roundtrip (round trip + refusal), tlv_tiling (termination + tiling on arbitrary input),
               fwf_roundtrip, fwf_every_row_once
 """
@@ -15,6 +19,8 @@ import tempfile
 
 from harness import core
 from harness import translate_py_tlv as trtlv
+from harness import translate_py_tlvgen as trgen
+from harness import translate_py_fwf as trfwf
 from harness.core import enc_str, enc_val
 
 MANIFEST = dict(
@@ -26,6 +32,14 @@ MANIFEST = dict(
          "into Lean on every run (Gen/TlvPy.lean) and Lean re-checks C16_generated_step_eq (translated loop body = Tlv.step seen through the yielded triple and the next offset), "
          "C16_generated_cond_eq, C16_generated_parse_eq (translated generator = Tlv.loop for every fuel: same triples, same way of ending) and C16_tlv_terminates_generated; "
          "a change of parse_tlv changes the generated text and either keeps these equalities or fails a proof obligation (code outside the translated subset: broken tie). "
+         "Same tie for the writer: harness/translate_py_tlvgen.py re-translates generate_tlv (guard statements with try/except ValueError around int(), the generator expression with its "
+         "conditional expressions, ljust/rjust, str(len()), raise_exception) into Gen/TlvGenPy.lean on every run and Lean re-checks C16_generated_gen_entry_eq (translated element = Tlv.genEntry: "
+         "which width check raises, paddings, concatenation), C16_generated_gen_entries_eq (the join over the items = Tlv.genEntries), C16_generated_gen_guard_eq (statements in front of the return = "
+         "the probe Tlv.lenPadOk; C16_generated_gen_guard_skips: a padding that is not one character is not probed) and C16_generated_gen_eq (translated generate_tlv = Tlv.generateTlv), "
+         "for natural widths and one-character paddings; stream tlvgenpy.gen compares the translated writer with the real one (also with paddings that are not one character). "
+         "Fixed-width: harness/translate_py_fwf.py re-translates two fragments into Gen/FwfPy.lean - the slice computation of parse_fwf_row (offset / width / till -> incoming_row[offset:till]) and the "
+         "cell rendering of generate_fwf_row (str(), zfill / ljust, truncation, splice into rendered_row) - and Lean re-checks C16_generated_fwf_slice_eq (= Fwf.colValue, never raises) and "
+         "C16_generated_gen_fwf_cell_eq (= Fwf.place); streams fwfpy.slice / fwfpy.place compare the translated fragments with one-column calls of the real functions (also negative positions); the rest of the two functions (eval of validations / mappings, the column loops, dict handling) stays differential only. "
          "Proved in Lean (unbounded in input length, number of entries, columns and lines; Props/C16.lean, nothing stated-but-not-proved): "
          "C16_tlv_tiles - for EVERY function used as int() that rejects the empty string, every input string and all field widths, "
          "parse_tlv (with fix C16-a: negative length -> ValueError) ends normally or with ValueError, never runs out of fuel, the "
@@ -68,21 +82,27 @@ GOOD_LP = "0 \t\n\x0b\x0c\r\x85\xa0\u1680\u2000\u2001\u2002\u2003\u2004\u2005\u2
 # ---------------------------------------------------------------------------
 # translator hook (A.1): regenerate Gen/TlvPy.lean from the source under test
 # ---------------------------------------------------------------------------
-def translate(ctx):
-    info = {"file": "lean/N0Verif/Gen/TlvPy.lean", "source": trtlv.SRC, "translator": "harness/translate_py_tlv.py"}
+def _translate_one(ctx, mod, lean_file, module):
+    info = {"file": lean_file, "source": mod.SRC, "translator": "harness/%s.py" % mod.__name__.split(".")[-1]}
     try:
-        legend, changed, differs = trtlv.regenerate(core.REPO)
+        legend, changed, differs = mod.regenerate(core.REPO)
         info.update(names=legend, regenerated_text_changed=changed, differs_from_unchanged_code=differs)
         if differs:
-            rc, out = core.sh(["lake", "build", "N0Verif.Gen.TlvPy"], cwd=core.LEAN_DIR)
+            rc, out = core.sh(["lake", "build", module], cwd=core.LEAN_DIR)
             if rc != 0:
                 raise trtlv.TranslateError("Lean rejects the generated definitions: " + out[-600:])
     except trtlv.TranslateError as e:
         # the code left the translated subset: the tie is broken, not the infrastructure; keep the text of the unchanged code
-        ctx.tie_broken.append({"tie": "translator harness/translate_py_tlv.py (Python subset -> Lean)", "detail": str(e)})
-        trtlv.restore_baseline()
+        ctx.tie_broken.append({"tie": "translator %s (Python subset -> Lean)" % info["translator"], "detail": str(e)})
+        mod.restore_baseline()
         info.update(error=str(e), restored="text generated from the unchanged code")
-    ctx.extra["translated"] = info
+    return info
+
+
+def translate(ctx):
+    ctx.extra["translated"] = _translate_one(ctx, trtlv, "lean/N0Verif/Gen/TlvPy.lean", "N0Verif.Gen.TlvPy")
+    ctx.extra["translated_writer"] = _translate_one(ctx, trgen, "lean/N0Verif/Gen/TlvGenPy.lean", "N0Verif.Gen.TlvGenPy")
+    ctx.extra["translated_fwf"] = _translate_one(ctx, trfwf, "lean/N0Verif/Gen/FwfPy.lean", "N0Verif.Gen.FwfPy")
 
 
 def tlvpy_parse_canon(c):
@@ -163,6 +183,40 @@ def tlv_gen_line(c):
 def tlv_gen_canon(c):
     gen = impl()[1]
     r = core.call(gen, mapping_of(c), c["tl"], c["ll"], c["tp"], c["lp"])
+    return "ok " + enc_str(r[1]) if r[0] == "ok" else "err " + r[1]
+
+
+# --- the fragments of parse_fwf_row / generate_fwf_row translated from the source (Gen/FwfPy.lean) --------------
+def _opt(x):
+    return "-" if x is None else str(x)
+
+
+def fwfpy_slice_line(c):
+    return "fwfpy.slice %s %s %s %s" % (enc_str(c["row"]), _opt(c["offset"]), _opt(c["width"]), _opt(c["till"]))
+
+
+def fwfpy_slice_canon(c):
+    """the value of the only column of a one-column layout (no validations): what the translated fragment computes"""
+    col = {k: c[k] for k in ("offset", "width", "till") if c[k] is not None or c.get("explicit_none")}
+    r = core.call(impl()[2], c["row"], {"c": col}, False)
+    if r[0] != "ok":
+        return "err " + r[1]
+    if not isinstance(r[1], dict) or list(r[1]) != ["c"]:
+        return "err BadResult"
+    v = r[1]["c"]
+    return "ok N" if v is None else "ok S" + enc_str(v)
+
+
+def fwfpy_place_line(c):
+    return "fwfpy.place %d %d %d %s %s %s" % (c["size"], c["offset"], c["till"], "-" if c["type"] is None else enc_str(c["type"]), enc_str(c["filler"]), enc_val(c["v"]))
+
+
+def fwfpy_place_canon(c):
+    """a one-column layout: the row starts as filler * till and the translated fragment renders the column into it"""
+    col = {"name": "c", "offset": c["offset"], "till": c["till"], "size": c["size"]}
+    if c["type"] is not None:
+        col["type"] = c["type"]
+    r = core.call(impl()[3], {"c": c["v"]}, [col], c["filler"])
     return "ok " + enc_str(r[1]) if r[0] == "ok" else "err " + r[1]
 
 
@@ -732,7 +786,7 @@ def shrink_failure(evaluator, case):
     return core.shrink(case, lambda c: _valid(evaluator, c) and fn(c) is not None)
 
 
-CANON = {"tlv.int": int_canon, "tlv.parse": tlv_parse_canon, "tlvpy.parse": tlvpy_parse_canon, "tlv.gen": tlv_gen_canon, "fwf.parse": fwf_parse_canon, "fwf.gen": fwf_gen_canon, "fwf.load": fwf_load_canon}
+CANON = {"tlv.int": int_canon, "tlv.parse": tlv_parse_canon, "tlvpy.parse": tlvpy_parse_canon, "tlv.gen": tlv_gen_canon, "tlvgenpy.gen": tlv_gen_canon, "fwfpy.slice": fwfpy_slice_canon, "fwfpy.place": fwfpy_place_canon, "fwf.parse": fwf_parse_canon, "fwf.gen": fwf_gen_canon, "fwf.load": fwf_load_canon}
 
 
 def replay(rp):
@@ -740,6 +794,8 @@ def replay(rp):
     if kind == "tie":
         try:
             trtlv.translate_source(open(os.path.join(core.REPO, trtlv.SRC), encoding="utf-8").read())
+            trgen.translate_source(open(os.path.join(core.REPO, trgen.SRC), encoding="utf-8").read())
+            trfwf.translate_source(open(os.path.join(core.REPO, trfwf.SRC), encoding="utf-8").read())
         except trtlv.TranslateError as e:
             print("translator:", e)
             return 1
@@ -748,6 +804,8 @@ def replay(rp):
     if kind == "proof":
         try:
             trtlv.regenerate(core.REPO)
+            trgen.regenerate(core.REPO)
+            trfwf.regenerate(core.REPO)
         except trtlv.TranslateError as e:
             print("translator:", e)
             return 1
@@ -794,6 +852,8 @@ def _run(ctx):
             "modules_with_errors": sorted(set(re.findall(r"^- (N0Verif\.\S+)", log, re.M))),
             "first_errors": [l[:240] for l in log.split("\n") if l.startswith("error: N0Verif")][:6],
             "generated_text_differs_from_unchanged_code": ctx.extra.get("translated", {}).get("differs_from_unchanged_code"),
+            "generated_writer_text_differs_from_unchanged_code": ctx.extra.get("translated_writer", {}).get("differs_from_unchanged_code"),
+            "generated_fwf_text_differs_from_unchanged_code": ctx.extra.get("translated_fwf", {}).get("differs_from_unchanged_code"),
         }
     n = ctx.budget(3000, 40000)
 
@@ -815,6 +875,10 @@ def _run(ctx):
     gcases = [gen_tlv_case(rng) for _ in range(n)]
     gcases += [{"d": [["A", "x"]], "tl": 2, "ll": 3, "tp": " ", "lp": "x"}, {"d": [], "tl": 0, "ll": 0, "tp": " ", "lp": "0"}, {"d": [["", ""]], "tl": 0, "ll": 1, "tp": " ", "lp": "0"}]
     ctx.correspond("tlv.gen", gcases, tlv_gen_line, tlv_gen_canon, nontrivial=lambda c: len(c["d"]) > 0)
+    # the writer translated from the source (Gen/TlvGenPy.lean); its paddings are whole strings
+    rng2 = ctx.rng("genpy")
+    wcases = gcases + [dict(c, **{rng2.choice(["tp", "lp"]): rng2.choice(["", "00", "  ", "ab", "0 "])}) for c in gcases[: max(50, len(gcases) // 10)]]
+    ctx.correspond("tlvgenpy.gen", wcases, lambda c: "tlvgenpy.gen" + tlv_gen_line(c)[len("tlv.gen"):], tlv_gen_canon, nontrivial=lambda c: len(c["d"]) > 0)
 
     # ---- B2: parse_tlv on generated, mutated and arbitrary text
     rng = ctx.rng("parse")
@@ -863,6 +927,17 @@ def _run(ctx):
         ggen.append({"rec": gen_record(rng, fmt), "fmt": fmt, "filler": rng.choice([" ", " ", ".", "*", "ab", ""])})
     ggen.append({"rec": [], "fmt": [], "filler": " "})
     ctx.correspond("fwf.gen", ggen, fwf_gen_line, fwf_gen_canon, nontrivial=lambda c: len(c["rec"]) > 0)
+
+    # ---- the fragments translated from the source (Gen/FwfPy.lean): also integers outside the scope of the model (negative)
+    rng = ctx.rng("fwfpy")
+    pos = [None, None, 0, 0, 1, 2, 3, 5, 8, 12, 20, -1, -3, -20]
+    scases = [{"row": gen_row_text(rng), "offset": rng.choice(pos), "width": rng.choice(pos), "till": rng.choice(pos), "explicit_none": rng.random() < 0.3}
+              for _ in range(ctx.budget(1500, 15000))]
+    ctx.correspond("fwfpy.slice", scases, fwfpy_slice_line, fwfpy_slice_canon, nontrivial=lambda c: c["offset"] is not None and len(c["row"]) > 0)
+    ints = [0, 1, 2, 3, 4, 6, 9, -1, -2]
+    plcases = [{"size": rng.choice(ints), "offset": rng.choice(ints), "till": rng.choice(ints), "type": rng.choice([None, "int", "int", "str", ""]),
+                "filler": rng.choice([" ", " ", ".", "ab", ""]), "v": gen_rec_value(rng)} for _ in range(ctx.budget(1500, 15000))]
+    ctx.correspond("fwfpy.place", plcases, fwfpy_place_line, fwfpy_place_canon, nontrivial=lambda c: c["till"] > 0)
 
     # ---- B5: load_fwf
     rng = ctx.rng("fwf.load")
